@@ -318,6 +318,14 @@ func GenAsm(t *rapid.T, allowRaw bool) refbundle.Asm {
 	for i := 0; i < nr; i++ {
 		a.Index = append(a.Index, refbundle.AsmIndex{URL: fmt.Sprintf("https://a.example/r%d%s", i, rapid.SampledFrom([]string{"", "?q=1", "/x%20y"}).Draw(t, "usuf")), Resps: []int{i}})
 	}
+	// b1: an entry with a variants-value and one location per possible key
+	if a.Version == "b1" && nr >= 2 && rapid.IntRange(0, 2).Draw(t, "variantentry") == 0 {
+		if nr >= 3 && rapid.Bool().Draw(t, "threekeys") {
+			a.Index = append(a.Index, refbundle.AsmIndex{URL: "https://a.example/negotiated", Variants: "Accept-Encoding;gzip;br;identity", Resps: []int{0, 1, 2}})
+		} else {
+			a.Index = append(a.Index, refbundle.AsmIndex{URL: "https://a.example/negotiated", Variants: "Accept-Language;en;ja", Resps: []int{rapid.IntRange(0, nr-1).Draw(t, "v0"), rapid.IntRange(0, nr-1).Draw(t, "v1")}})
+		}
+	}
 	// optionally two index entries share one response (aliasing is legal)
 	if nr >= 1 && rapid.IntRange(0, 5).Draw(t, "alias") == 0 {
 		a.Index = append(a.Index, refbundle.AsmIndex{URL: "https://a.example/alias", Resps: []int{0}})
@@ -487,6 +495,9 @@ func smallAsms() []refbundle.Asm {
 			{Fields: []refbundle.HeaderField{{"x-a", "1"}, {":status", "404"}}, BodyLen: 30, BodyTag: 2},
 		}
 		a.Index = []refbundle.AsmIndex{{URL: "https://a.example/a", Resps: []int{0}}, {URL: "https://a.example/b?x", Resps: []int{1}}}
+		if ver == "b1" {
+			a.Index = append(a.Index, refbundle.AsmIndex{URL: "https://a.example/v", Variants: "Accept-Language;en;ja", Resps: []int{0, 1}})
+		}
 		a.Sections = []refbundle.AsmSection{{Name: "index", Kind: "index", Decoy: -1}}
 		if ver == "b2" {
 			a.Sections = append(a.Sections, refbundle.AsmSection{Name: "primary", Kind: "primary", Text: "https://a.example/a", Decoy: -1})
@@ -543,6 +554,56 @@ func TestExhaustiveTruncFlip(t *testing.T) {
 				for _, mode := range []string{"delta", "filesize", "respsize"} {
 					n++
 					if !prop.One(t, Case{Asm: a, Truncate: -1, FlipOff: -1, Patches: []PatchSpec{{Slot: s.Name, Mode: mode, Value: uint64(d)}}}) {
+						return
+					}
+				}
+			}
+		}
+	}
+	// relations between two location fields: B := A + c for every ordered pair of offset / length
+	// fields of the index and constants a reader might confuse (relative vs absolute offsets)
+	for _, a := range asms {
+		file, slots := refbundle.Assemble(&a)
+		starts, sectionsStart := refbundle.SectionAbs(file, &a, slots)
+		consts := []uint64{0, 1, ^uint64(0), uint64(sectionsStart), uint64(len(file))}
+		for i, sec := range a.Sections {
+			if i < len(starts) && (sec.Kind == "responses" || sec.Kind == "index") {
+				consts = append(consts, uint64(starts[i]), -uint64(starts[i]), uint64(starts[i]-sectionsStart))
+			}
+		}
+		var locs []refbundle.Slot
+		for _, sl := range slots {
+			if strings.Contains(sl.Name, ".off[") || strings.Contains(sl.Name, ".len[") {
+				locs = append(locs, sl)
+			}
+		}
+		for _, sa := range locs {
+			for _, sb := range locs {
+				if sa.Name == sb.Name {
+					continue
+				}
+				for _, c := range consts {
+					n++
+					if !prop.One(t, Case{Asm: a, Truncate: -1, FlipOff: -1, Patches: []PatchSpec{{Slot: sb.Name, Mode: "abs", Value: sa.Value + c}}}) {
+						return
+					}
+				}
+			}
+		}
+		// a whole location (offset, length) made a shifted copy of another one: same length, offset + c
+		for _, sa := range locs {
+			if !strings.Contains(sa.Name, ".off[") {
+				continue
+			}
+			la, okA := findSlot(slots, strings.Replace(sa.Name, ".off[", ".len[", 1))
+			for _, sb := range locs {
+				if !strings.Contains(sb.Name, ".off[") || sa.Name == sb.Name || !okA {
+					continue
+				}
+				lbName := strings.Replace(sb.Name, ".off[", ".len[", 1)
+				for _, c := range consts {
+					n++
+					if !prop.One(t, Case{Asm: a, Truncate: -1, FlipOff: -1, Patches: []PatchSpec{{Slot: sb.Name, Mode: "abs", Value: sa.Value + c}, {Slot: lbName, Mode: "abs", Value: la.Value}}}) {
 						return
 					}
 				}
